@@ -253,11 +253,21 @@ def event(kind, payload=None):
 # --------------------------------------------------------------------------- SB
 
 class SB:
-    __slots__ = ('t',)
+    """Symbolic Boolean.  `rt`/`rf` optionally carry *robust* versions of "true"/"false" (equalities violated
+    by a margin, see Env.eq) used only to pick counterexamples that survive floating-point replay."""
+    __slots__ = ('t', 'rt', 'rf')
     __array_priority__ = 1000
 
-    def __init__(self, t):
+    def __init__(self, t, rt=None, rf=None):
         self.t = t
+        self.rt = rt
+        self.rf = rf
+
+    def robust_true(self):
+        return self.rt if self.rt is not None else self.t
+
+    def robust_false(self):
+        return self.rf if self.rf is not None else z3.Not(self.t)
 
     def __bool__(self):
         return branch(self.t)
@@ -303,13 +313,17 @@ class SB:
     __rxor__ = __xor__
 
     def __invert__(self):
-        return SB(z3.Not(self.t))
+        return SB(z3.Not(self.t), self.rf, self.rt)
 
     def __eq__(self, o):
         if isinstance(o, ndarray_types()):
             return NotImplemented
-        if isinstance(o, (SB, bool)):
-            return SB(self.t == SB.lift(o))
+        if isinstance(o, bool):
+            return self if o else ~self
+        if isinstance(o, SB):
+            return SB(self.t == o.t,
+                      z3.Or(z3.And(self.robust_true(), o.robust_true()), z3.And(self.robust_false(), o.robust_false())),
+                      z3.Or(z3.And(self.robust_true(), o.robust_false()), z3.And(self.robust_false(), o.robust_true())))
         return self.as_int() == o
 
     def __ne__(self, o):
@@ -361,27 +375,37 @@ class SB:
 
 
 def sb_and(xs):
-    ts, conc = [], True
+    sbs = []
     for x in xs:
         if isinstance(x, SB):
-            ts.append(x.t)
+            sbs.append(x)
         elif not x:
             return False
-    if not ts:
+    if not sbs:
         return True
-    return SB(z3.And(*ts)) if len(ts) > 1 else SB(ts[0])
+    if len(sbs) == 1:
+        return sbs[0]
+    rob = any(x.rt is not None or x.rf is not None for x in sbs)
+    if not rob:
+        return SB(z3.And(*[x.t for x in sbs]))
+    return SB(z3.And(*[x.t for x in sbs]), z3.And(*[x.robust_true() for x in sbs]), z3.Or(*[x.robust_false() for x in sbs]))
 
 
 def sb_or(xs):
-    ts = []
+    sbs = []
     for x in xs:
         if isinstance(x, SB):
-            ts.append(x.t)
+            sbs.append(x)
         elif x:
             return True
-    if not ts:
+    if not sbs:
         return False
-    return SB(z3.Or(*ts)) if len(ts) > 1 else SB(ts[0])
+    if len(sbs) == 1:
+        return sbs[0]
+    rob = any(x.rt is not None or x.rf is not None for x in sbs)
+    if not rob:
+        return SB(z3.Or(*[x.t for x in sbs]))
+    return SB(z3.Or(*[x.t for x in sbs]), z3.Or(*[x.robust_true() for x in sbs]), z3.And(*[x.robust_false() for x in sbs]))
 
 
 def sb_not(x):
